@@ -1,20 +1,19 @@
-"""Per-property configuration of the checks (streams, generated modules, notes for the evidence)."""
+"""Per-property configuration: one file tools/propdefs/Cxx.py per claimed property, each defining PROP = {...}.
+Optional NOT_APPLICABLE reasons live in tools/propdefs/not_applicable.py."""
+import glob, importlib.util, os
 
-PROPS = {
-    "C17": {
-        "claim": "Proof: the complete transition relation of the joypad model (every reachable state x every action) is "
-                 "enumerated by the Lean kernel against an abstract button-matrix spec (P1 bits, IRQ iff a line falls, reported once); "
-                 "the model is tied to the code by an exhaustive correspondence over the same finite space through the public API.",
-        "note": "Trusted: Lean kernel (axioms propext/Quot.sound at most), the harness/driver comparison, rustc. The model is hand-written; "
-                "what is verified about the code is theorem AND exhaustive agreement of model and code on all 24 576 transitions.",
-        "technique": "Lean 4 proof by kernel enumeration (decide +kernel) + exhaustive model/code correspondence",
-        "streams": [{"name": "joy"}],
-        "modules": ["GbVerif.Model.Joypad", "GbVerif.Spec.Joypad", "GbVerif.Proofs.NatBits"],
-        "exhaustive": True,
-        "rule": "all 16x16 button nibbles x 4 selections x (8 presses + 8 releases + 8 select bytes) through the public "
-                "Joypad API; non-trivial = P1 changed or the interrupt was raised",
-        "assumptions": ["action_state/direction_state only ever hold their low nibble (invariant proved: inv_reachable)"],
-    },
-}
-
+_D = os.path.join(os.path.dirname(os.path.abspath(__file__)), "propdefs")
+PROPS = {}
+for _f in sorted(glob.glob(os.path.join(_D, "C*.py"))):
+    _pid = os.path.basename(_f)[:-3]
+    _spec = importlib.util.spec_from_file_location("propdef_" + _pid, _f)
+    _m = importlib.util.module_from_spec(_spec)
+    _spec.loader.exec_module(_m)
+    PROPS[_pid] = _m.PROP
 NOT_APPLICABLE = {}
+_na = os.path.join(_D, "not_applicable.py")
+if os.path.exists(_na):
+    _spec = importlib.util.spec_from_file_location("propdef_na", _na)
+    _m = importlib.util.module_from_spec(_spec)
+    _spec.loader.exec_module(_m)
+    NOT_APPLICABLE = _m.NOT_APPLICABLE
